@@ -687,6 +687,8 @@ struct Resolver
         if (v == nullptr) {
             v = view("raw:" + rawUrl);
         }
+        // a model that sits in the library was read in the mode the importer had then, whatever its mode is now
+        bool effectiveStrict = v != nullptr && v->parsedStrict >= 0 ? v->parsedStrict != 0 : strict;
         if (v == nullptr) {
             v = view(path);
         }
@@ -703,7 +705,7 @@ struct Resolver
             return nullptr;
         }
         lastVersion = v->id;
-        if (v->load == Load::NONCELLML || ((v->load == Load::CELLML11 || v->load == Load::NOISY11) && strict)) {
+        if (v->load == Load::NONCELLML || ((v->load == Load::CELLML11 || v->load == Load::NOISY11) && effectiveStrict)) {
             scratch = FileSpec();
             scratch.path = v->spec.path;
             scratch.dir = v->spec.dir;
